@@ -120,6 +120,24 @@ fn structured_line(r: &mut Rng, real: &[String]) -> String {
                 "redirect-rule=x:5", "~redirect=x", "~removeparam=x", "image,~image", "domain=é.com", "tag=é"]);
             format!("{}${}", gen::pattern(r), o)
         }
+        10 => {
+            // letter case: hosts and patterns written with upper-case letters (`||WWW.Example.com^`),
+            // /regex/ bodies whose escapes are case-sensitive (`\D` is not `\d`), with and without
+            // $match-case, upper-cased option names
+            let host = r.pick(&["WWW.Example.com", "www.EXAMPLE.com", "Www.www.foo.com", "ADS.Net", "wWw.a.B.example.co.uk", "WWW."]);
+            match r.below(6) {
+                0 => format!("||{}^", host),
+                1 => format!("||{}/Ads/Banner.JS|", host),
+                2 => format!("@@||{}^$Script,DOMAIN=A.com", host),
+                3 => {
+                    let body = r.pick(&["\\D+Ad", "Ad\\S*\\.JS", "[A-Z]+\\Wx", "\\Bads\\B", "AD[0-9]\\\\W", "a\\Db|\\S"]);
+                    let opt = r.pick(&["", "$match-case", "$script,match-case", "$~match-case", "$MATCH-CASE"]);
+                    format!("/{}/{}", body, opt)
+                }
+                4 => gen::rule(r, true).to_uppercase(),
+                _ => format!("{}##.Ad-Box", host),
+            }
+        }
         _ => {
             if real.is_empty() {
                 gen::rule(r, false)
